@@ -387,7 +387,15 @@ func (s *Sched) enabled() (en []trans, wakeAt int64) {
 			parked = append(parked, g)
 		}
 	}
+	isStart := func(g *G) bool { return g.op.Kind == shim.OpYield && g.op.Name == "go" }
 	sort.Slice(parked, func(i, j int) bool {
+		// A freshly spawned goroutine's start gate ranks first: by default a child starts at
+		// once (as it did before goroutine starts became schedule points), and *delaying* its
+		// start is the deviation. Every schedule reachable without start gates therefore stays
+		// reachable with the same number of deviations.
+		if si, sj := isStart(parked[i]), isStart(parked[j]); si != sj {
+			return si
+		}
 		if (parked[i] == s.last) != (parked[j] == s.last) {
 			return parked[i] == s.last
 		}
